@@ -82,6 +82,18 @@ theorem result_area_large_enough (nargs : Nat) :
   · simp [resultWritten]
   · intro r; exact Nat.le_trans (hslots nargs) (hge r)
 
+/-- **Writer and reader agree on who is passed by reference**: the backend's test
+`a_ct->ct_flags & (…)` uses exactly the flags of the types for which the generator stores
+`&a_i` (structs, unions, and the primitives of `may_need_128_bits`), those flags select
+exactly these primitives in the backend's type table, and both sides use the same stride. -/
+theorem by_reference_sets_agree :
+    (writerByRefFlags.all (Generated.ExternPySize.readerByRefFlags.contains ·)
+      && Generated.ExternPySize.readerByRefFlags.all (writerByRefFlags.contains ·)) = true
+    ∧ ((Generated.Primitives.backendTypes.filter fun e =>
+          e.flags.any (Generated.ExternPySize.readerByRefFlags.contains ·)).map (·.name)
+        = Generated.ExternPySize.byRefPrims)
+    ∧ Generated.ExternPySize.readerStride = Generated.ExternPySize.slot := by decide +kernel
+
 /-- The model's slot addresses `p + 8*i` use the generator's stride. -/
 theorem slot_stride_is_source : Generated.ExternPySize.slot = 8 ∧ Generated.ExternPySize.minArea = 8 := by decide
 
